@@ -263,9 +263,10 @@ CHECKS = {
     "C08": dict(
         title="Publisher and subscriber agree on the topic, in every target language",
         legs=[leg("TestC08Topics", module="idl", quick=(150, 4), thorough=(3000, 16), timeout_s=3000, prefixes=["c08."]),
+              leg("TestBedC08", module="idl", quick=(1500, 4), thorough=(15000, 16), timeout_s=3000, prefixes=["c08.bed", "bed."], env={"VERIF_BED_PROGRAMS": "6"}),
               leg("TestC08ExtractorSelfTest", module="idl", fixed=True)],
         level="exploration",
-        technique="property-based testing (rapid): differential across six generated outputs (go, java, dart, py, py:asyncio, py:tornado) — topic expressions extracted from the emitted source and evaluated — plus a composition oracle",
+        technique="property-based testing (rapid): differential across six generated outputs (go, java, dart, py, py:asyncio, py:tornado) — topic expressions extracted from the emitted source and evaluated — plus a composition oracle; the generated Go publishers/subscribers of generated programs are executed against a recording in-memory broker (topic published == topic subscribed == composed topic)",
         rule=("Scope names in 8 identifier shapes (capitalised or not, snake, SCREAMING, initialisms), 1..3 operation names, prefixes with 0..5 static tokens / variables in any order, -delim in {. / - _ : | ..}, runtime variable values. "
               "Non-trivial: delimiter != '.', or scope name not capitalised, or >=1 variable. Distinct: sha256 of the case."),
         level_text=("Exploration: within each language the publisher's and every subscriber's topic expression evaluate to the same string; the six languages produce the same string; "
